@@ -379,9 +379,9 @@ Proof.
   - (* process *)
     destruct (s_pc (s_tick s)); try (simpl; split; auto; sys_split; fail).
     unfold process.
-    pose proof (process_owned_ok (fun x => x) (s_cancelable (s_tick s)) (s_active (s_tick s)) (s_batch (s_tick s)) Ham Hb)
+    pose proof (process_owned_ok (anchor_conv (s_nstep (s_tick s))) (s_cancelable (s_tick s)) (s_active (s_tick s)) (s_batch (s_tick s)) Ham Hb)
       as [Ha' Hr'].
-    destruct (process_owned (fun x => x) (s_cancelable (s_tick s)) (s_active (s_tick s)) (s_batch (s_tick s)))
+    destruct (process_owned (anchor_conv (s_nstep (s_tick s))) (s_cancelable (s_tick s)) (s_active (s_tick s)) (s_batch (s_tick s)))
       as [am' recs]. simpl in Ha', Hr'.
     simpl. split.
     + sys_split. constructor.
